@@ -732,5 +732,34 @@ func genC04Case(c *hlib.Ctx) {
 		}
 		return 0
 	}
-	c.Do(fmt.Sprintf("rp.select %d %d %d %d %d %s", b2i(dedupOn), b2i(wrl), b2i(repFirst), qmint, qmaxt, fmtRpSeries(ss)), true)
+	out := c.Do(fmt.Sprintf("rp.select %d %d %d %d %d %s", b2i(dedupOn), b2i(wrl), b2i(repFirst), qmint, qmaxt, fmtRpSeries(ss)), true)
+	// how often the answer carries samples outside the query range (SelectHints are hints: chunks are
+	// returned whole, and boundedSeriesIterator.Seek does not enforce maxt)
+	before, beyond := false, false
+	for _, ser := range strings.Split(out, "|") {
+		i := strings.IndexByte(ser, '=')
+		if i < 0 {
+			continue
+		}
+		for _, x := range strings.Split(ser[i+1:], ",") {
+			j := strings.IndexByte(x, ':')
+			if j < 0 {
+				continue
+			}
+			if t, err := strconv.ParseInt(x[:j], 10, 64); err == nil {
+				if t < qmint {
+					before = true
+				}
+				if t > qmaxt {
+					beyond = true
+				}
+			}
+		}
+	}
+	if before {
+		c.Count("answer:sample-before-mint-returned")
+	}
+	if beyond {
+		c.Count("answer:sample-beyond-maxt-returned")
+	}
 }
